@@ -209,8 +209,22 @@ impl StringPool {
 
     /// Inserts a string into the pool, or increments its refcount if it's
     /// already in the pool, and returns the index of the string in the pool.
+    ///
+    /// Panics if the pool has no room for another distinct string; see
+    /// `try_incref` for a version that returns an error instead.
+    #[allow(dead_code)]
     pub fn incref(&mut self, string: String) -> StringRef {
-        self.is_modified = true;
+        match self.try_incref(string) {
+            Ok(string_ref) => string_ref,
+            Err(error) => panic!("{}", error),
+        }
+    }
+
+    /// Inserts a string into the pool, or increments its refcount if it's
+    /// already in the pool, and returns the index of the string in the pool.
+    /// Returns an error (leaving the pool unchanged) if the string is new and
+    /// the pool cannot address another entry.
+    pub fn try_incref(&mut self, string: String) -> io::Result<StringRef> {
         // TODO: change the internal representation of StringPool to make this
         // more efficient.
         for (index, &mut (ref mut st, ref mut refcount)) in
@@ -220,26 +234,29 @@ impl StringPool {
                 debug_assert_eq!(st, "");
                 *st = string;
                 *refcount = 1;
-                return StringRef((index + 1) as i32);
+                self.is_modified = true;
+                return Ok(StringRef((index + 1) as i32));
             }
             if *st == string && *refcount < u16::MAX {
                 *refcount += 1;
-                return StringRef((index + 1) as i32);
+                self.is_modified = true;
+                return Ok(StringRef((index + 1) as i32));
             }
         }
         if self.strings.len() >= u16::MAX as usize && !self.long_string_refs {
             // TODO: If this happens, we need to rewrite all database tables
             // from short to long string refs.
-            panic!(
-                "Too many strings; rewriting to long string refs is not \
-                    yet supported"
+            invalid_input!(
+                "Too many distinct strings; rewriting to long string refs is \
+                 not yet supported"
             );
         }
         if self.strings.len() >= MAX_STRING_REF as usize {
-            panic!("Too many distinct strings in string pool");
+            invalid_input!("Too many distinct strings in string pool");
         }
         self.strings.push((string, 1));
-        StringRef(self.strings.len() as i32)
+        self.is_modified = true;
+        Ok(StringRef(self.strings.len() as i32))
     }
 
     /// Decrements the refcount of a string in the pool.
